@@ -174,6 +174,18 @@ pub fn outline(c: &mut Chooser, task: &ExternalTask) -> Vec<Entry> {
                         shadow,
                     );
                 }
+                // one lemma in four mentions the successor of the induction variable as a whole argument
+                // (`.. or p(N + 1)`): the step has to move it on to `N + 1 + 1`
+                if c.data.len() > 80 && c.aux(48 + i as u64, 4) == 0 {
+                    let q = known[c.aux(49 + i as u64, known.len())].clone();
+                    let succ = fol::GeneralTerm::IntegerTerm(fol::IntegerTerm::BinaryOperation {
+                        op: fol::BinaryOperator::Add,
+                        lhs: Box::new(fol::IntegerTerm::Variable("N".into())),
+                        rhs: Box::new(fol::IntegerTerm::Numeral(1)),
+                    });
+                    let extra = if c.aux(50 + i as u64, 2) == 0 { atom(&q, vec![succ]) } else { cmp(succ, fol::Relation::Greater, num(lower + 1)) };
+                    f = g::bin(if c.aux(57 + i as u64, 2) == 0 { fol::BinaryConnective::Disjunction } else { fol::BinaryConnective::Conjunction }, f, extra);
+                }
                 // one lemma in four has two more parameters (general variables U and W, closed by anthem or listed
                 // in the quantifier): the base case and the step quantify over all of them
                 if c.data.len() > 80 && c.aux(45 + i as u64, 4) == 0 {
@@ -235,7 +247,7 @@ pub fn outline(c: &mut Chooser, task: &ExternalTask) -> Vec<Entry> {
     entries
 }
 
-const DEFECTS: [&str; 13] = [
+const DEFECTS: [&str; 14] = [
     "none",
     "not-an-equivalence",
     "lhs-not-an-atom",
@@ -249,6 +261,7 @@ const DEFECTS: [&str; 13] = [
     "predicate-of-the-task-after-renaming",
     "predicate-mentioned-by-earlier-lemma",
     "extra-quantified-variable-in-body",
+    "preamble-predicate-name",
 ];
 
 /// a definition with exactly one defect (the rest of the outline stays valid)
@@ -281,6 +294,16 @@ fn defective_definition(c: &mut Chooser, task: &ExternalTask, defect: &str, earl
             eqv(
                 atom("bad", vec![x()]),
                 g::bin(fol::BinaryConnective::Conjunction, atom(&inp, vec![gv("Y")]), cmp(x(), fol::Relation::Greater, gv("Y"))),
+            ),
+        ),
+        // the "defined" predicate is the order predicate of the preamble that every problem carries: not a
+        // fresh predicate, and its definition contradicts or constrains the standard order
+        "preamble-predicate-name" => g::quant(
+            true,
+            vec![v("X", fol::Sort::General), v("Y", fol::Sort::General)],
+            eqv(
+                atom(["p__less__", "p__less_equal__", "p__greater__"][c.aux(58, 3)], vec![x(), gv("Y")]),
+                g::bin(fol::BinaryConnective::Conjunction, ok_body, atom(&inp, vec![gv("Y")])),
             ),
         ),
         "predicate-defined-earlier" => one(eqv(atom(&earlier[0], vec![x()]), ok_body)),
@@ -374,7 +397,7 @@ impl Check for C13 {
             gt::choices(180),
             // (longer than the 80 of the recorded replays: shapes added later are switched on by the length)
             gt::choices(84),
-            prop_oneof![2 => Just(0u8), 1 => 1u8..13],
+            prop_oneof![2 => Just(0u8), 1 => 1u8..14],
             gt::choices(40),
         )
             .prop_map(|(task, outline, defect, interp)| Case { task, outline, defect, interp })
